@@ -165,6 +165,9 @@ fn cmp_tree(orig: &Tree, got: &Result<Tree, String>) -> String {
 
 // ------------------------------------------------------------------ the evaluation context
 
+/// step budget of one evaluation (recursive YAML anchors denote infinite values)
+const FUEL: u64 = 3_000_000;
+
 struct Ctx {
     vm: VmContext<CacheHub, CacheImpl>,
     counter: usize,
@@ -203,7 +206,9 @@ impl Ctx {
             .add_source(SourcePath::Path(name.into(), format), Cursor::new(text.to_owned()))
             .map_err(|e| format!("IO:{e}"))?;
         let v = self.vm.prepare_eval(id).map_err(|e| err_class(&e))?;
+        nickel_lang_core::verif_hooks::set_fuel(FUEL);
         let r = VirtualMachine::<_, CacheImpl>::new(&mut self.vm).eval_full_for_export(v);
+        nickel_lang_core::verif_hooks::set_fuel(u64::MAX);
         match r {
             Ok(v) => Ok(tree_of(&v)),
             Err(e) => Err(err_class(&nickel_lang_core::error::Error::from(e))),
@@ -212,7 +217,9 @@ impl Ctx {
 
     /// Evaluate a closed term (no stdlib needed) with the real evaluator.
     fn eval_term(&mut self, t: NickelValue) -> Result<NickelValue, String> {
+        nickel_lang_core::verif_hooks::set_fuel(FUEL);
         let r = VirtualMachine::<_, CacheImpl>::new_empty_env(&mut self.vm).eval_full(t);
+        nickel_lang_core::verif_hooks::set_fuel(u64::MAX);
         r.map_err(|e| err_class(&nickel_lang_core::error::Error::from(e)))
     }
 }
@@ -678,9 +685,27 @@ fn case_emit(ctx: &mut Ctx, s: &str) -> String {
 
 // ------------------------------------------------------------------ the round-trip oracles
 
+/// `deep <pattern> <leaf spec>`: the leaf wrapped in one container per pattern character
+/// (`a` = singleton array, `r` = record with the field `k`), innermost first, in a top-level record.
+fn build_deep(pattern: &str, leaf: &str) -> NickelValue {
+    let j: serde_json::Value = serde_json::from_str(leaf).expect("leaf spec");
+    let mut v = build(&j);
+    for c in pattern.chars() {
+        v = match c {
+            'a' => NickelValue::array_posless([v].into_iter().collect(), Vec::new()),
+            _ => NickelValue::record_posless(RecordData::with_field_values([(LocIdent::from("k"), v)])),
+        };
+    }
+    NickelValue::record_posless(RecordData::with_field_values([(LocIdent::from("top"), v)]))
+}
+
 fn case_val(ctx: &mut Ctx, spec: &str, detail: bool) -> String {
     let j: serde_json::Value = serde_json::from_str(spec).expect("value spec");
     let v = build(&j);
+    oracles(ctx, v, detail)
+}
+
+fn oracles(ctx: &mut Ctx, v: NickelValue, detail: bool) -> String {
     let orig = tree_of(&v);
     let mut out: Vec<String> = Vec::new();
     let is_record = matches!(orig, Tree::Rec(_));
@@ -796,6 +821,7 @@ fn handle(ctx: &mut Ctx, line: &str) -> String {
         ["emit", s] => case_emit(ctx, &cps_to_string(s)),
         ["val", spec] => case_val(ctx, spec, false),
         ["val", spec, "detail"] => case_val(ctx, spec, true),
+        ["deep", pattern, leaf] => oracles(ctx, build_deep(pattern, leaf), false),
         ["doc", fmt, text] => case_doc(ctx, fmt, &cps_to_string(text)),
         _ => "!badcase".into(),
     }
